@@ -120,6 +120,17 @@ def generate(r, tier):
         kinds = ["raise", "bool", "repr"] + (["cancel"] if engine == "loop" else [])
         fp = dict(profile, p_fault=0.85, fault_kinds=kinds, p_nested=0.4)
         scn["faulted"] = [gen.gen_ticket(r, "q%d" % i, units, fp) for i in range(r.randint(2, 6))]
+        if world.get("classes") and len(world["classes"]) == 1 and r.random() < 0.25:
+            # a class of interned objects (``__new__`` returns the existing instance; no ``__init__``): constructing "again" is a
+            # checked call like any other - also when a method of the very instance makes it
+            world["classes"][0]["intern"] = True
+            world["classes"][0].pop("init", None)
+            for td in list(scn["faulted"]):
+                if td.get("obj") and r.random() < 0.7:
+                    nt = {"id": td["id"] + ".n", "fn": "__init__", "op": "new", "cls": "K0", "obj": td["obj"]}
+                    td.setdefault("body", {}).setdefault("nested", []).insert(r.randint(0, len(td["body"].get("nested", []))), nt)
+                elif r.random() < 0.3:
+                    scn["faulted"].append({"id": td["id"] + ".t", "fn": "__init__", "op": "new", "cls": "K0", "obj": r.choice(world["objects"])["name"]})
         if world.get("classes") and r.random() < 0.3:
             # the class is a proxy whose attribute look-up may fail: ``instance.__class__`` raises at its n-th look-up within a call
             world["classes"][0]["ga"] = True
